@@ -95,6 +95,26 @@ def work(job):
     return res
 
 
+def multi_parent_events(g):
+    """Targeted family: an atom whose subscripts fix two parents of its variable (all polarities) together with one
+    other atom (<=1 subscript): the Lemma-24 parent test then compares two or more parent pairs."""
+    import itertools as itt
+
+    from ..events import atom_keys
+
+    others = atom_keys(g.nodes, 1)
+    for v in g.nodes:
+        pas = g.parents(v)
+        for p1, p2 in itt.combinations(pas, 2):
+            for x1, x2 in itt.product((0, 1), repeat=2):
+                key = (v, ((p1, x1), (p2, x2)) if p1 < p2 else ((p2, x2), (p1, x1)))
+                for ok in others:
+                    if ok == key:
+                        continue
+                    for val1, val2 in itt.product((0, 1), repeat=2):
+                        yield ((key[0], key[1], val1), (ok[0], ok[1], val2))
+
+
 def jobs_for(t):
     jobs = []
     to = TIMEOUT_MS[t]
@@ -110,6 +130,7 @@ def jobs_for(t):
         for g in family(3, labellings=("fwd",), n_min=3):
             add(g, events(g.nodes, 2, 1))
             add(g, events(g.nodes, 3, 1, stride=24, offset=seed()))
+            add(g, multi_parent_events(g))
         for name in ("fig9", "frontdoor", "napkin"):
             add(CURATED[name], events(CURATED[name].nodes, 2, 1, stride=1))
     else:
@@ -117,6 +138,7 @@ def jobs_for(t):
             add(g, events(g.nodes, 3, 2))
         for g in family(3, n_min=3):
             add(g, events(g.nodes, 2, 2))
+            add(g, multi_parent_events(g))
             add(g, events(g.nodes, 3, 1, stride=4, offset=seed()))
         for i, g in enumerate(family(4, labellings=("fwd",), n_min=4)):
             if max(len(g.parents(n)) for n in g.nodes) <= 2 and i % 24 == seed() % 24:
@@ -134,7 +156,7 @@ def run() -> int:
         "relabelled event -> counterfactual probability polynomial in a symbolic response-type model (vf/sem/l3.py)",
     ]
     rep.bounds = {
-        "graphs": "quick: ADMGs <=2 nodes (events <=3 atoms, subscripts <=2), 3 nodes (events <=2 atoms + 1/24 of the 3-atom events, subscripts <=1), fig. 9 / front-door / napkin (<=2 atoms); thorough: two labellings, subscripts <=2 on 3 nodes, 1/24 of the 4-node classes",
+        "graphs": "quick: ADMGs <=2 nodes (events <=3 atoms, subscripts <=2), 3 nodes (events <=2 atoms + 1/24 of the 3-atom events, subscripts <=1; plus the targeted family: an atom fixing two parents of its variable together with any other atom), fig. 9 / front-door / napkin (<=2 atoms); thorough: two labellings, subscripts <=2 on 3 nodes, 1/24 of the 4-node classes",
         "models": "all positive functional SCMs over binary variables, one binary latent per bidirected edge",
         "per_query_timeout_ms": TIMEOUT_MS[t],
         "PYTHONHASHSEED": hashseed(),
